@@ -112,6 +112,11 @@ def main():
         done[p] = code; calls[p] = sorted(f.calls); order.append(p)
     sys.setrecursionlimit(100000)
     for p in list(bodies): visit(p)
+    # generic default methods of Polynom<T> are instantiated on demand; C18 needs every degree at the three posit types
+    for p in list(bodies):
+        if re.search(r'::polynom::Polynom::poly\w+$', p):
+            for T_ in ('p8e0::P8E0', 'p16e1::P16E1', 'p32e2::P32E2'):
+                visit(p + '@@' + T_ + '|' + T_)
     # ---- layout: Core = callee-closure of everything called across groups or living outside a group
     grp = {p: group_of(p) for p in order}
     core = set(p for p in order if grp[p] == 'Core')
